@@ -52,8 +52,11 @@ def r_stateless(ck: Checker, rule: str, modname: str, cls: str, methods: tuple[s
         ck.incomplete(rule, None, None, f"{cls}: only {n} of the methods {methods} found")
 
 
-def r_shared_defaults(ck: Checker, rule: str, modname: str, classes: tuple[str, ...]) -> None:
-    """S2a: `x: T = {}` in the class body, `self.x[...] = ...` in a method, no `self.x = ...` in __init__."""
+def r_shared_defaults(ck: Checker, rule: str, modname: str, classes: tuple[str, ...] | None) -> None:
+    """S2a: `x: T = {}` in the class body, `self.x[...] = ...` in a method, no `self.x = ...` in __init__.
+    (classes = None: every class of the module, and fills through a module-level instance `_STATE.x.update(...)` count as well.)"""
+    if classes is None:
+        classes = tuple(c_.name for c_ in ck.repo.mod(modname).tree.body if isinstance(c_, ast.ClassDef))  # (top-level classes)
     for cname in classes:
         c = ck.repo.cls(modname, cname)
         what = f"every {cname} instance has containers of its own (no mutable default declared at class level is filled by the instances)"
@@ -79,6 +82,18 @@ def r_shared_defaults(ck: Checker, rule: str, modname: str, classes: tuple[str, 
                 for w, txt in _self_writes(m):
                     if f"self.{name}[" in txt or f"self.{name}." in txt:
                         fills = (m.name, txt)
+            if fills is None and not rebinds:
+                # filled through an instance kept at module level: `_STATE = C()` ... `_STATE.<name>.update(...)` / `_STATE.<name>[k] = v`
+                mod_tree = c.mod.tree
+                insts = {st_.targets[0].id for st_ in mod_tree.body if isinstance(st_, ast.Assign) and len(st_.targets) == 1 and isinstance(st_.targets[0], ast.Name)
+                         and isinstance(st_.value, ast.Call) and dotted(st_.value.func) == cname}
+                for x in ast.walk(mod_tree):
+                    if isinstance(x, ast.Call) and isinstance(x.func, ast.Attribute) and x.func.attr in MUTATORS and isinstance(x.func.value, ast.Attribute) \
+                            and x.func.value.attr == name and isinstance(x.func.value.value, ast.Name) and x.func.value.value.id in insts:
+                        fills = ("<module>", norm(x)[:50])
+                    elif isinstance(x, ast.Subscript) and isinstance(x.ctx, (ast.Store, ast.Del)) and isinstance(x.value, ast.Attribute) and x.value.attr == name \
+                            and isinstance(x.value.value, ast.Name) and x.value.value.id in insts:
+                        fills = ("<module>", norm(x)[:50])
             if fills and not rebinds:
                 bad = (st, f"{cname}.{name} is a mutable default declared at class level and {cname}.{fills[0]} fills it ({fills[1]}): all instances share the one object")
         if bad:
@@ -115,15 +130,28 @@ def r_class_attr_cache(ck: Checker, rule: str, modnames: tuple[str, ...]) -> Non
             def is_cls(e: ast.expr) -> bool:
                 return class_expr(e) or (isinstance(e, ast.Name) and e.id in aliases)
 
+            str_consts = {st_.targets[0].id: st_.value.value for st_ in mod_.tree.body if isinstance(st_, ast.Assign) and len(st_.targets) == 1 and isinstance(st_.targets[0], ast.Name)
+                          and isinstance(st_.value, ast.Constant) and isinstance(st_.value.value, str)}
+
+            def attr_name(e: ast.expr) -> str | None:
+                if isinstance(e, ast.Constant) and isinstance(e.value, str):
+                    return e.value
+                if isinstance(e, ast.Name) and e.id in str_consts:
+                    return str_consts[e.id]
+                return None
+            # (a function that receives the class as a parameter named cls / klass / clz / a parameter annotated type[...] reads and writes class attributes too)
+            for a_ in fn.args.args:
+                if a_.arg in ("cls", "klass", "clz", "class_") or (a_.annotation is not None and norm(a_.annotation).lower().startswith(("type[", "t.type[", "typing.type["))):
+                    aliases.add(a_.arg)
             stores: dict[str, ast.AST] = {}
             reads: dict[str, ast.AST] = {}
             for x in ast.walk(fn):
                 if isinstance(x, ast.Attribute) and is_cls(x.value) and not x.attr.startswith("__"):
                     (stores if isinstance(x.ctx, ast.Store) else reads)[x.attr] = x
-                elif isinstance(x, ast.Call) and dotted(x.func) in ("setattr",) and len(x.args) == 3 and is_cls(x.args[0]) and isinstance(x.args[1], ast.Constant):
-                    stores[str(x.args[1].value)] = x
-                elif isinstance(x, ast.Call) and dotted(x.func) in ("getattr", "hasattr") and len(x.args) >= 2 and is_cls(x.args[0]) and isinstance(x.args[1], ast.Constant):
-                    reads[str(x.args[1].value)] = x
+                elif isinstance(x, ast.Call) and dotted(x.func) in ("setattr",) and len(x.args) == 3 and is_cls(x.args[0]) and attr_name(x.args[1]) is not None:
+                    stores[attr_name(x.args[1])] = x  # type: ignore[index]
+                elif isinstance(x, ast.Call) and dotted(x.func) in ("getattr", "hasattr") and len(x.args) >= 2 and is_cls(x.args[0]) and attr_name(x.args[1]) is not None:
+                    reads[attr_name(x.args[1])] = x  # type: ignore[index]
             both = sorted((set(stores) & set(reads)) - reset)
             if both:
                 ck.violation(rule, f, stores[both[0]], "per-class data is keyed by the class object (a table keyed by cls, or cls.__dict__), not found through attribute lookup",
@@ -458,6 +486,10 @@ def r_iter_once(ck: Checker, rule: str, modnames: tuple[str, ...]) -> None:
                     defs.setdefault(st.targets[0].id, []).append(st.value)
                 elif isinstance(st, ast.AnnAssign) and isinstance(st.target, ast.Name) and st.value is not None:
                     defs.setdefault(st.target.id, []).append(st.value)
+            # a parameter the signature declares as an Iterable / Iterator may be a one-shot iterator as well
+            for a_ in fn.args.args + fn.args.kwonlyargs:
+                if a_.annotation is not None and any(k in norm(a_.annotation) for k in ("Iterable", "Iterator", "Generator")):
+                    defs[a_.arg] = [ast.Call(func=ast.Name(id="iter", ctx=ast.Load()), args=[ast.Name(id=f"<parameter {a_.arg}: {norm(a_.annotation)[:30]}>", ctx=ast.Load())], keywords=[])]
             for name, vals in defs.items():
                 if len(vals) != 1:
                     continue
@@ -706,3 +738,173 @@ def r_who_calls(ck: Checker, rule: str, modnames: tuple[str, ...], callee: str, 
                                  construct=f"{q} calls {norm(x)[:50]} — {why}")
     if n == 0:
         ck.holds(rule, (modnames[0], "*"), None, f"`{callee}` has no call site in the library outside {', '.join(allowed) or 'user code'} ({why})")
+
+
+def r_position_not_by_content(ck: Checker, rule: str, funcs: list[tuple[str, str]]) -> None:
+    """A traversal reports *positions*: two content-equal sub-trees are two positions with their own descendants (and their own origins).
+    Bookkeeping keyed by `content_id` (or by the node, which compares by content) — a memo of expansions, a visited set — makes the second
+    occurrence share what belongs to the first (positive pattern: `.content_id` as a subscript / get / membership key inside a traversal)."""
+    for modname, qual in funcs:
+        f = ck.repo.func(modname, qual)
+        bad = None
+        for fn in [x for x in (f.raw, f.node) if x is not None]:
+            for x in ast.walk(fn):
+                key = None
+                if isinstance(x, ast.Subscript):
+                    key = x.slice
+                elif isinstance(x, ast.Call) and isinstance(x.func, ast.Attribute) and x.func.attr in ("get", "setdefault", "add", "pop") and x.args:
+                    key = x.args[0]
+                elif isinstance(x, ast.Compare) and len(x.ops) == 1 and isinstance(x.ops[0], (ast.In, ast.NotIn)):
+                    key = x.left
+                if key is not None and any(isinstance(a, ast.Attribute) and a.attr == "content_id" for a in ast.walk(key)):
+                    bad = x
+        what = f"{qual}: no bookkeeping of the traversal is keyed by content (equal sub-trees at two positions are expanded and reported separately)"
+        if bad is not None:
+            ck.violation(rule, f, bad, what, positive=True, construct=f"{qual}: {norm(bad)[:60]} — keyed by content_id: below a repeated sub-tree the descendants (and origins) of its first occurrence are reported")
+        else:
+            ck.holds(rule, f, f.node, what)
+
+
+def r_flag_pairing(ck: Checker, rule: str, modnames: tuple[str, ...]) -> None:
+    """A switch that lives at module or class level and is set for the duration of an operation (`X.flag = True; work(); X.flag = False`,
+    `global M; M = obj; work(); M = None`) must be reset on every exit: `work()` can raise.  Positive pattern: between the set and the
+    reset of the same target there is a call, and the reset is not in a `finally` (nor repeated in a handler that covers the calls)."""
+    n = 0
+    for modname in modnames:
+        m_ = ck.repo.mod(modname)
+        for q, fn, _cls in _raw_functions(m_):
+            globs = {nm for g in ast.walk(fn) if isinstance(g, ast.Global) for nm in g.names}
+
+            def target_key(t: ast.expr) -> str | None:
+                if isinstance(t, ast.Name) and t.id in globs:
+                    return t.id
+                if isinstance(t, ast.Attribute) and isinstance(t.value, ast.Name) and (t.value.id == "cls" or t.value.id[:1].isupper()) and not t.attr.startswith("__"):
+                    return norm(t)
+                return None
+            for blk in [b for x in ast.walk(fn) for b in ([getattr(x, f_) for f_ in ("body", "orelse") if isinstance(getattr(x, f_, None), list)])]:
+                for i, st in enumerate(blk):
+                    if not (isinstance(st, ast.Assign) and len(st.targets) == 1 and target_key(st.targets[0])):
+                        continue
+                    key = target_key(st.targets[0])
+                    resets = [j for j in range(i + 1, len(blk)) if isinstance(blk[j], ast.Assign) and len(blk[j].targets) == 1 and target_key(blk[j].targets[0]) == key]
+                    if not resets:
+                        continue
+                    between = blk[i + 1:resets[0]]
+                    calls = [c for b_ in between for c in ast.walk(b_) if isinstance(c, ast.Call)]
+                    if not calls:
+                        continue
+                    n += 1
+                    what = f"{q}: `{key}` is reset on every exit of the region it is set for (try/finally)"
+                    ck.violation(rule, (m_.rel, q), blk[resets[0]], what, positive=True,
+                                 construct=f"{q}: `{norm(st)[:40]}` … {norm(calls[0])[:40]} … `{norm(blk[resets[0]])[:40]}` in one block: when the call raises, `{key}` keeps its value for every later operation")
+    if n == 0:
+        ck.holds(rule, (modnames[0], "*"), None, f"no module- / class-level switch is set and reset around calls without try/finally in {', '.join(modnames)}")
+
+
+def r_cached_closure(ck: Checker, rule: str, modnames: tuple[str, ...]) -> None:
+    """A function object created inside a call closes over that call's arguments.  Kept in a table that outlives the call and handed to later
+    calls, it still uses the *first* call's arguments for everything that is not part of the table key (positive pattern: a nested def /
+    lambda stored in a module-level table while it reads a parameter of the enclosing function that the key does not mention)."""
+    n = 0
+    for modname in modnames:
+        m_ = ck.repo.mod(modname)
+        tables = {tg.id for st in m_.tree.body for tg in ([st.targets[0]] if isinstance(st, ast.Assign) and len(st.targets) == 1 else [st.target] if isinstance(st, ast.AnnAssign) else [])
+                  if isinstance(tg, ast.Name) and _mutable_container(getattr(st, "value", None))}
+        for q, fn, _cls in _raw_functions(m_):
+            params = {a.arg for a in fn.args.args + fn.args.kwonlyargs}
+            nested = {x.name: x for x in ast.walk(fn) if isinstance(x, ast.FunctionDef) and x is not fn}
+            for st in ast.walk(fn):
+                if not (isinstance(st, ast.Assign) and len(st.targets) == 1 and isinstance(st.targets[0], ast.Subscript) and isinstance(st.targets[0].value, ast.Name)
+                        and st.targets[0].value.id in tables):
+                    continue
+                v = st.value
+                bodies = [nested[v.id]] if isinstance(v, ast.Name) and v.id in nested else ([v] if isinstance(v, ast.Lambda) else [])
+                if not bodies:
+                    continue
+                n += 1
+                key = st.targets[0].slice
+                if isinstance(key, ast.Name):
+                    defs = [d.value for d in ast.walk(fn) if isinstance(d, ast.Assign) and len(d.targets) == 1 and isinstance(d.targets[0], ast.Name) and d.targets[0].id == key.id]
+                    key = defs[0] if len(defs) == 1 else key
+                in_key = {x.id for x in ast.walk(key) if isinstance(x, ast.Name)}
+                # every nested def of that name (the two arms of an if define the same name twice)
+                all_bodies = [x for x in ast.walk(fn) if isinstance(x, ast.FunctionDef) and x is not fn and isinstance(v, ast.Name) and x.name == v.id] or bodies
+                captured = sorted({x.id for b in all_bodies for x in ast.walk(b) if isinstance(x, ast.Name) and isinstance(x.ctx, ast.Load) and x.id in params} - in_key)
+                what = f"{q}: a function kept in `{st.targets[0].value.id}` depends only on what the key of its entry names"
+                if captured:
+                    ck.violation(rule, (m_.rel, q), st, what, positive=True,
+                                 construct=f"{q}: the closure stored under {norm(key)[:40]} reads `{captured[0]}` of the call that created it — later calls with the same key but another `{captured[0]}` get the first one's")
+                else:
+                    ck.holds(rule, (m_.rel, q), st, what)
+    if n == 0:
+        ck.holds(rule, (modnames[0], "*"), None, f"no closure is kept in a module-level table in {', '.join(modnames)}")
+
+
+def r_memo_of_live_view(ck: Checker, rule: str, modnames: tuple[str, ...]) -> None:
+    """What `cls.__subclasses__()` or the TYPES registry answer changes whenever a class is defined.  A value computed from them and kept
+    in a table that outlives the call is a snapshot: classes defined later are missing from it for good (positive pattern: a function
+    that both stores into a module-level table and reads `__subclasses__()` / TYPES)."""
+    n = 0
+    for modname in modnames:
+        m_ = ck.repo.mod(modname)
+        tables = {tg.id for st in m_.tree.body for tg in ([st.targets[0]] if isinstance(st, ast.Assign) and len(st.targets) == 1 else [st.target] if isinstance(st, ast.AnnAssign) else [])
+                  if isinstance(tg, ast.Name) and _mutable_container(getattr(st, "value", None))} - _REGISTRIES
+        for q, fn, _cls in _raw_functions(m_):
+            stores = [x for x in ast.walk(fn) if isinstance(x, ast.Subscript) and isinstance(x.ctx, ast.Store) and isinstance(x.value, ast.Name) and x.value.id in tables]
+            stores += [x for x in ast.walk(fn) if isinstance(x, ast.Call) and isinstance(x.func, ast.Attribute) and x.func.attr in ("setdefault", "update") and isinstance(x.func.value, ast.Name)
+                       and x.func.value.id in tables]
+            if not stores:
+                continue
+            live = [x for x in ast.walk(fn) if (isinstance(x, ast.Call) and isinstance(x.func, ast.Attribute) and x.func.attr == "__subclasses__")
+                    or (isinstance(x, ast.Name) and x.id == "TYPES" and isinstance(x.ctx, ast.Load))]
+            n += 1
+            what = f"{q}: what is kept in a table does not depend on the set of classes defined so far"
+            if live:
+                ck.violation(rule, (m_.rel, q), stores[0], what, positive=True,
+                             construct=f"{q}: {norm(stores[0])[:40]} keeps a value computed from {norm(live[0])[:40]} — a class defined after the entry was made is never seen by it")
+            else:
+                ck.holds(rule, (m_.rel, q), stores[0], what)
+    if n == 0:
+        ck.holds(rule, (modnames[0], "*"), None, f"no function of {', '.join(modnames)} fills a module-level table")
+
+
+def r_groupby_on_nodes(ck: Checker, rule: str, modnames: tuple[str, ...]) -> None:
+    """itertools.groupby starts a new group when the key *compares unequal* to the previous one.  Nodes compare structurally, so two
+    adjacent keys that are different node objects with equal content and origins fall into one group (positive pattern: groupby keyed by a
+    node-valued attribute — parent / node — of traversal records)."""
+    n = 0
+    for modname in modnames:
+        m_ = ck.repo.mod(modname)
+        for q, fn, _cls in _raw_functions(m_):
+            for x in ast.walk(fn):
+                if isinstance(x, ast.Call) and (dotted(x.func) or "").split(".")[-1] == "groupby":
+                    key = next((k.value for k in x.keywords if k.arg == "key"), x.args[1] if len(x.args) > 1 else None)
+                    n += 1
+                    nodey = key is not None and any((isinstance(y, ast.Constant) and y.value in ("parent", "node")) or (isinstance(y, ast.Attribute) and y.attr in ("parent", "node"))
+                                                    for y in ast.walk(key))
+                    what = f"{q}: consecutive records are grouped by identity of the node they belong to, not by equality"
+                    if nodey or key is None:
+                        ck.violation(rule, (m_.rel, q), x, what, positive=True,
+                                     construct=f"{q}: {norm(x)[:60]} groups by a node compared with == — adjacent twin parents (equal content, equal origins) are merged into one group")
+                    else:
+                        ck.holds(rule, (m_.rel, q), x, what)
+    if n == 0:
+        ck.holds(rule, (modnames[0], "*"), None, f"no itertools.groupby in {', '.join(modnames)}")
+
+
+def r_callback_truthiness(ck: Checker, rule: str, funcs: list[tuple[str, str]], callbacks: tuple[str, ...] = ("filter", "prune", "extra_filter")) -> None:
+    """The filter / prune callbacks are predicates: their result is used by its truth value (None, 0, '' reject).  Positive pattern: the
+    result of a callback call compared with `is False` / `is not False` / `is True` / `== True`."""
+    for modname, qual in funcs:
+        f = ck.repo.func(modname, qual)
+        bad = None
+        for fn in [x for x in (f.raw, f.node) if x is not None]:
+            for x in ast.walk(fn):
+                if isinstance(x, ast.Compare) and len(x.ops) == 1 and isinstance(x.comparators[0], ast.Constant) and isinstance(x.comparators[0].value, bool) \
+                        and isinstance(x.left, ast.Call) and isinstance(x.left.func, ast.Name) and x.left.func.id in callbacks:
+                    bad = x
+        what = f"{qual}: what a filter / prune callback returns is used by its truth value"
+        if bad is not None:
+            ck.violation(rule, f, bad, what, positive=True, construct=f"{qual}: {norm(bad)[:50]} — a falsy result that is not the object False (None, 0, '') is no longer a rejection")
+        else:
+            ck.holds(rule, f, f.node, what)
